@@ -173,6 +173,9 @@ func takeCPUs(
 						break
 					}
 				}
+				if !acc.needs(cpusPerCore) {
+					break
+				}
 			}
 		}
 	}
